@@ -15,6 +15,8 @@ LEAN = os.path.join(VERIF, 'lean')
 TOOLS = os.path.join(VERIF, 'tools')
 EVIDENCE = os.path.join(VERIF, 'evidence')
 REPLAYS = os.path.join(EVIDENCE, 'replays')
+if os.environ.get('VERIF_SCRATCH_EVIDENCE'):      # runs against a scratch tree (tools/seedtest.py) must not rewrite the evidence of /repo
+    EVIDENCE = os.environ['VERIF_SCRATCH_EVIDENCE']
 REPO = os.environ.get('REPO_DIR', '/repo')
 DRIVER = os.path.join(LEAN, '.lake', 'build', 'bin', 'kddrv')
 PY = '/venv/bin/python'
